@@ -54,4 +54,14 @@ impl Factory {
         self.fragment_size = fragment_size;
         Ok(self)
     }
+    // tests a truncated copy of the argument: says nothing about values >= 65536
+    pub fn bad_truncated_set_fragment_size(&mut self, fragment_size: usize) -> Result<&mut Self, DdsError> {
+        let r = 8..=65000u16;
+        if !r.contains(&(fragment_size as u16)) {
+            Err(DdsError::BadParameter)
+        } else {
+            self.fragment_size = fragment_size;
+            Ok(self)
+        }
+    }
 }
